@@ -8,7 +8,7 @@ BATCH = 80          # scenarios per harness process (pools are never dropped: bo
 PARALLEL = 6        # harness processes at a time
 
 def scenario(n, kinds, seed, perturb):
-    k = sum(1 for c in kinds if c not in 'wz')
+    k = sum(1 for c in kinds if c not in 'wzd')
     return f'{n} tasks={k} kinds={kinds or "-"} seed={seed} perturb={1 if perturb else 0}'
 
 def parse_scenario(line):
